@@ -2311,19 +2311,21 @@ avx_rule_avgsb_slow (OrcCompiler *p, void *user, OrcInstruction *insn)
   const int src1 = p->vars[insn->src_args[1]].alloc;
   const int dest = p->vars[insn->dest_args[0]].alloc;
   const int tmp = orc_compiler_get_constant (p, 1, 0x80);
+  /* the biased second operand goes to a scratch register: src1 may be a
+   * constant or parameter register that lives across iterations, and the
+   * 128-bit VEX form used for the narrow steps would clear its upper half */
+  const int tmp2 = orc_compiler_get_temp_reg (p);
   const int size = p->vars[insn->src_args[0]].size << p->loop_shift;
 
   if (size >= 32) {
-    orc_avx_emit_pxor (p, src1, tmp, src1);
+    orc_avx_emit_pxor (p, src1, tmp, tmp2);
     orc_avx_emit_pxor (p, src0, tmp, dest);
-    orc_avx_emit_pavgb (p, dest, src1, dest);
-    orc_avx_emit_pxor (p, src1, tmp, src1);
+    orc_avx_emit_pavgb (p, dest, tmp2, dest);
     orc_avx_emit_pxor (p, dest, tmp, dest);
   } else {
-    orc_avx_sse_emit_pxor (p, src1, tmp, src1);
+    orc_avx_sse_emit_pxor (p, src1, tmp, tmp2);
     orc_avx_sse_emit_pxor (p, src0, tmp, dest);
-    orc_avx_sse_emit_pavgb (p, dest, src1, dest);
-    orc_avx_sse_emit_pxor (p, src1, tmp, src1);
+    orc_avx_sse_emit_pavgb (p, dest, tmp2, dest);
     orc_avx_sse_emit_pxor (p, dest, tmp, dest);
   }
 }
@@ -2336,19 +2338,21 @@ avx_rule_avgsw_slow (OrcCompiler *p, void *user, OrcInstruction *insn)
   const int src1 = p->vars[insn->src_args[1]].alloc;
   const int dest = p->vars[insn->dest_args[0]].alloc;
   const int tmp = orc_compiler_get_constant (p, 2, 0x8000);
+  /* the biased second operand goes to a scratch register: src1 may be a
+   * constant or parameter register that lives across iterations, and the
+   * 128-bit VEX form used for the narrow steps would clear its upper half */
+  const int tmp2 = orc_compiler_get_temp_reg (p);
   const int size = p->vars[insn->src_args[0]].size << p->loop_shift;
 
   if (size >= 32) {
-    orc_avx_emit_pxor (p, src1, tmp, src1);
+    orc_avx_emit_pxor (p, src1, tmp, tmp2);
     orc_avx_emit_pxor (p, src0, tmp, dest);
-    orc_avx_emit_pavgw (p, dest, src1, dest);
-    orc_avx_emit_pxor (p, src1, tmp, src1);
+    orc_avx_emit_pavgw (p, dest, tmp2, dest);
     orc_avx_emit_pxor (p, dest, tmp, dest);
   } else {
-    orc_avx_sse_emit_pxor (p, src1, tmp, src1);
+    orc_avx_sse_emit_pxor (p, src1, tmp, tmp2);
     orc_avx_sse_emit_pxor (p, src0, tmp, dest);
-    orc_avx_sse_emit_pavgw (p, dest, src1, dest);
-    orc_avx_sse_emit_pxor (p, src1, tmp, src1);
+    orc_avx_sse_emit_pavgw (p, dest, tmp2, dest);
     orc_avx_sse_emit_pxor (p, dest, tmp, dest);
   }
 }
